@@ -9,6 +9,7 @@ DEFAULT = {
 }
 
 OVERRIDE = {
+    "C10": {"quick": dict(types="d", shards=16), "thorough": dict(types="d", shards=8, configs=["asan", "asan-i64"])},
 }
 
 COMMON_ASSUME = [
@@ -19,6 +20,9 @@ COMMON_NOTE = ("Trusted: the harness's dense long-double reference, the choice-s
                "Exploration only: the property is shown to hold on the generated cases (counts in the evidence file), nothing is proved.")
 
 INFO = {
+    "C10": dict(level="exploration", assumptions=["reference elimination tree computed by definition on dense boolean matrices (n <= 60)"] + COMMON_ASSUME[1:], note=COMMON_NOTE,
+                technique="property-based testing (rapidcheck): differential against a by-definition column elimination tree, metamorphic pattern-only dependence of the ordering, postorder validity predicate",
+                text="Generated m x n patterns go through get_perm_c and sp_preorder for every ordering method; the etree is compared exactly with an independent reference and the postorder / view / permutation clauses are validity predicates."),
     "C04": dict(level="exploration", assumptions=COMMON_ASSUME + ["structurally singular inputs run in a forked child with zero-filled fresh blocks while finding F-SS is open"], note=COMMON_NOTE,
                 technique="property-based testing (rapidcheck): generated structurally singular / exactly cancelling matrices; reference structural rank by augmenting paths, bounds-checked decoding of the leading block, exact 128-bit rank for small integers",
                 text="Singular inputs of every kind are generated and the return value, the leading factorization, the zero candidates and the untouched right-hand side are checked against reference computations; exploration is the right level because the property quantifies over all positions and numbers of deficient columns."),
@@ -38,7 +42,7 @@ INFO = {
 
 NOT_APPLICABLE = {}
 
-PROPS = ["C01", "C02", "C03", "C04", "C05"]
+PROPS = ["C01", "C02", "C03", "C04", "C05", "C10"]
 
 
 def all_props():
